@@ -282,6 +282,9 @@ def gen_type(w: World, depth: int, cid_limit: int, hashable=False, self_cid=None
     leaf = depth <= 0 or rng.random() < 0.3
     if hashable:
         r = rng.random()
+        cands = [c for c in range(cid_limit) if w.type_hashable(("class", c))] if p.get("class_keys", True) else []
+        if cands and r < 0.15:
+            return ("class", rng.choice(cands))
         if r < 0.6:
             return ("prim", rng.choice(["int", "str", "str", "bool", "bytes"] + (["float"] if p.get("floats", True) else [])))
         if r < 0.8:
